@@ -17,6 +17,6 @@ CONF = {
                     'the data sub-layers\' DecodeFromBytes (Dot11Data..., assign Payload only) always succeed; Dot11TypeMetadata / dataDecodeMap tables as listed in runner/ldot11.ml',
                     'the HT control structure is compared as the canonical list of its fields (nil pointer = -1)'],
     'trusted_base': ['model: coq/Model/Ldot11Model.v is a hand transcription of layers/dot11.go Dot11.DecodeFromBytes/NextLayerType/SerializeTo as repaired by the fix: commits of agent-fixer and agent-ldot11'],
-    'explanation': 'Theorems over all byte strings / layer values about the Gallina model of the 802.11 MAC header codec: decoder (no panic, fresh = reused) and serializer (no panic, junk freedom, round trip in the form that is true of the code: the last four payload octets come back as Checksum). The plain C06 statement is refuted (C06_dot11_roundtrip_refuted: SerializeTo writes no FCS, QoS control or HT control; recorded by the Sweep known findings). ComputeChecksums is ignored by Dot11.SerializeTo.',
+    'explanation': 'Theorems over all byte strings / layer values about the Gallina model of the 802.11 MAC header codec: decoder (no panic, fresh = reused) and serializer (no panic, junk freedom, round trip PROVED in the form that is true of the code (C06_dot11_roundtrip: the last four payload octets come back as Checksum)). The plain C06 statement is refuted (C06_dot11_roundtrip_refuted: SerializeTo writes no FCS, QoS control or HT control; recorded by the Sweep known findings). ComputeChecksums is ignored by Dot11.SerializeTo.',
     'mutations_tried': ['drop the QOS/HTControl reset (caught)', 'mgmt/data length check offset+14 -> +12 (caught)', 'four-address condition && -> || (caught)', 'QoS TID mask 0x0F -> 0x07 (caught)', 'SerializeTo does not zero the prepended region (caught)', 'Payload starts one octet late (caught)'],
 }
